@@ -65,6 +65,103 @@ def strict_order_closure(F, clo):
     return None, 'unrecognised comparison: %s' % fmt(rt)
 
 
+def check_decoder_order(ctx, inst, dec=None):
+    """The node accept exit of the decoder is dominated by the passing edge of a STRICT adjacent-digest order check over the
+    very vector handed to the node constructor (so a decoded node never holds two equal assertion digests)."""
+    F = ctx.F
+    if dec is None:
+        dec = codec.decoder_table(ctx)
+        if dec is None:
+            ctx.lost(inst, 'decoder tables')
+            return
+    b, tb = dec['body'], dec['tb']
+    node_accepts = [(bi, si, t) for bi, si, t, kind, tags, vs in dec['accepts'] if kind == 'Array']
+    if not node_accepts:
+        ctx.lost(inst, 'node accept exit')
+    for bi, si, t in node_accepts:
+        t2 = unwrap_try(t[3][0]) if t[0] == 'agg' and t[2] == 'Ok' else unwrap_try(t)
+        vec = unwrap_try(t2[2][1]) if callee_of(t2) is not None and len(t2[2]) == 2 else None
+        if vec is None:
+            ctx.fail(inst, ctx.site(b, bi, si), 'cannot identify the assertion vector handed to the node constructor', key=inst + '|novec')
+            continue
+        svec = strip_sites(detry(vec))
+        def windows_of_vec(c):
+            w = m_call(c, name='windows')
+            return w is not None and const_int(w[1]) == 2 and strip_sites(detry(w[0])) == svec
+        done = False
+        problems = []
+        # (a) universally quantified adjacent-pair test: windows(2).all(..) / !windows(2).any(..) / for pair in windows(2) { if .. bail }
+        for g in forall_guards(F, b, tb, [bi], windows_of_vec):
+            def widx(t, g=g):
+                d = m_digest(t)
+                ix = m_index(d) if d is not None else None
+                if ix is not None and ix[0] == g.elem and const_int(ix[1]) in (0, 1):
+                    return const_int(ix[1])
+                return None
+            def is_cmp(t, g=g):
+                if t[0] != 'call' or len(t[2]) != 2 or call_name(t) not in ('lt', 'gt', 'le', 'ge'):
+                    return False
+                x, y = widx(t[2][0]), widx(t[2][1])
+                return x is not None and y is not None and x != y
+            atoms = g.atoms(is_cmp)
+            if len(atoms) != 1:
+                problems.append('no single comparison of the two adjacent digests in the element test (%s)' % g.describe())
+                continue
+            a = atoms[0]
+            nm, order = call_name(a), (widx(a[2][0]), widx(a[2][1]))
+            strict_when = {('lt', (0, 1)): True, ('gt', (1, 0)): True, ('ge', (0, 1)): False, ('le', (1, 0)): False}.get((nm, order))
+            if strict_when is None:
+                cls = 'nonstrict' if (nm, order) in (('le', (0, 1)), ('ge', (1, 0)), ('gt', (0, 1)), ('lt', (1, 0))) and (nm in ('le', 'ge')) else 'descending'
+                bad = forall_table(g, atoms, lambda v: False)
+                if bad:
+                    ctx.fail(inst, ctx.site(b, bi, si), 'order check is %s (%s): repeated or misordered assertion digests are accepted' % (cls, fmt(a)), key=inst + '|' + cls)
+                    done = True
+                    break
+                continue
+            bad = forall_table(g, atoms, lambda v: v[0] == strict_when)
+            if bad:
+                problems.append('a pair passes although %s is %s: %s' % (fmt(a), not strict_when, bad[:2]))
+                ctx.fail(inst, ctx.site(b, bi, si), 'order check is nonstrict/ineffective: a pair passes when %s is %s (%s)' % (fmt(a), not strict_when, g.describe()), key=inst + '|nonstrict')
+                done = True
+                break
+            ctx.ok(inst, ctx.site(b, bi, si), 'node accept only after every adjacent pair passed the strict test %s == %s; %s; %s' % (fmt(a), strict_when, g.describe(), g.info), sample=fmt(a))
+            done = True
+            break
+        if done:
+            continue
+        # (b) is_sorted* forms
+        verdict = None
+        for sb, dt in switch_on(tb, b, lambda d: True):
+            for g in walk(dt):
+                if not (isinstance(g, tuple) and g and g[0] == 'call'):
+                    continue
+                nm = call_name(g)
+                if nm in ('is_sorted_by',):
+                    a = g[2]
+                    if same(unwrap_try(a[0]), vec) and a[1][0] == 'closure':
+                        cls, why = strict_order_closure(F, a[1])
+                        verdict = (g, cls, why, True)
+                elif nm in ('is_sorted', 'is_sorted_by_key'):
+                    a = g[2]
+                    if same(unwrap_try(a[0]), vec):
+                        verdict = (g, 'nonstrict', '%s accepts equal neighbours' % nm, True)
+        if verdict is None:
+            ctx.fail(inst, ctx.site(b, bi, si), 'no adjacent-digest order check over the decoded assertion vector guards the node accept exit '
+                     '(the decoder would accept misordered or repeated assertions)%s' % ('; ' + '; '.join(problems) if problems else ''), key=inst + '|missing', rule='GUARD/IDIOM-UNKNOWN')
+            continue
+        g, cls, why, passing = verdict
+        if cls != 'strict':
+            ctx.fail(inst, ctx.site(b, bi, si), 'order check is %s (%s): repeated or misordered assertion digests are accepted' % (cls or 'unrecognised', why),
+                     key=inst + '|' + (cls or 'unknown'))
+            continue
+        sg = strip_sites(g)
+        ok, info = guard_dominates(b, tb, [bi], lambda x: strip_sites(x) == sg, True)
+        if ok:
+            ctx.ok(inst, ctx.site(b, bi, si), 'node accept dominated by passing edge of strict order check %s; %s' % (why, info), sample=why)
+        else:
+            ctx.fail(inst, ctx.site(b, bi, si), 'strict order check exists but does not guard the accept exit: ' + info, key=inst + '|notguard')
+
+
 def check(ctx):
     F = ctx.F
     fl = [F, ctx.dep('bc_components'), ctx.dep('dcbor')]
@@ -146,88 +243,7 @@ def check(ctx):
         else:
             ctx.fail('C06.5', ctx.site(b, bi, si), 'elided digest is not built by the length-checking Digest::from_data_ref(..)?: %s' % fmt(t2), key='C06.5')
     # ---- C06.6 strict order / uniqueness
-    for bi, si, t in node_accepts:
-        t2 = unwrap_try(t[3][0]) if t[0] == 'agg' and t[2] == 'Ok' else unwrap_try(t)
-        vec = unwrap_try(t2[2][1]) if callee_of(t2) is not None and len(t2[2]) == 2 else None
-        if vec is None:
-            ctx.fail('C06.6', ctx.site(b, bi, si), 'cannot identify the assertion vector handed to the node constructor', key='C06.6|novec')
-            continue
-        svec = strip_sites(detry(vec))
-        def windows_of_vec(c):
-            w = m_call(c, name='windows')
-            return w is not None and const_int(w[1]) == 2 and strip_sites(detry(w[0])) == svec
-        done = False
-        problems = []
-        # (a) universally quantified adjacent-pair test: windows(2).all(..) / !windows(2).any(..) / for pair in windows(2) { if .. bail }
-        for g in forall_guards(F, b, tb, [bi], windows_of_vec):
-            def widx(t, g=g):
-                d = m_digest(t)
-                ix = m_index(d) if d is not None else None
-                if ix is not None and ix[0] == g.elem and const_int(ix[1]) in (0, 1):
-                    return const_int(ix[1])
-                return None
-            def is_cmp(t, g=g):
-                if t[0] != 'call' or len(t[2]) != 2 or call_name(t) not in ('lt', 'gt', 'le', 'ge'):
-                    return False
-                x, y = widx(t[2][0]), widx(t[2][1])
-                return x is not None and y is not None and x != y
-            atoms = g.atoms(is_cmp)
-            if len(atoms) != 1:
-                problems.append('no single comparison of the two adjacent digests in the element test (%s)' % g.describe())
-                continue
-            a = atoms[0]
-            nm, order = call_name(a), (widx(a[2][0]), widx(a[2][1]))
-            strict_when = {('lt', (0, 1)): True, ('gt', (1, 0)): True, ('ge', (0, 1)): False, ('le', (1, 0)): False}.get((nm, order))
-            if strict_when is None:
-                cls = 'nonstrict' if (nm, order) in (('le', (0, 1)), ('ge', (1, 0)), ('gt', (0, 1)), ('lt', (1, 0))) and (nm in ('le', 'ge')) else 'descending'
-                bad = forall_table(g, atoms, lambda v: False)
-                if bad:
-                    ctx.fail('C06.6', ctx.site(b, bi, si), 'order check is %s (%s): repeated or misordered assertion digests are accepted' % (cls, fmt(a)), key='C06.6|' + cls)
-                    done = True
-                    break
-                continue
-            bad = forall_table(g, atoms, lambda v: v[0] == strict_when)
-            if bad:
-                problems.append('a pair passes although %s is %s: %s' % (fmt(a), not strict_when, bad[:2]))
-                ctx.fail('C06.6', ctx.site(b, bi, si), 'order check is nonstrict/ineffective: a pair passes when %s is %s (%s)' % (fmt(a), not strict_when, g.describe()), key='C06.6|nonstrict')
-                done = True
-                break
-            ctx.ok('C06.6', ctx.site(b, bi, si), 'node accept only after every adjacent pair passed the strict test %s == %s; %s; %s' % (fmt(a), strict_when, g.describe(), g.info), sample=fmt(a))
-            done = True
-            break
-        if done:
-            continue
-        # (b) is_sorted* forms
-        verdict = None
-        for sb, dt in switch_on(tb, b, lambda d: True):
-            for g in walk(dt):
-                if not (isinstance(g, tuple) and g and g[0] == 'call'):
-                    continue
-                nm = call_name(g)
-                if nm in ('is_sorted_by',):
-                    a = g[2]
-                    if same(unwrap_try(a[0]), vec) and a[1][0] == 'closure':
-                        cls, why = strict_order_closure(F, a[1])
-                        verdict = (g, cls, why, True)
-                elif nm in ('is_sorted', 'is_sorted_by_key'):
-                    a = g[2]
-                    if same(unwrap_try(a[0]), vec):
-                        verdict = (g, 'nonstrict', '%s accepts equal neighbours' % nm, True)
-        if verdict is None:
-            ctx.fail('C06.6', ctx.site(b, bi, si), 'no adjacent-digest order check over the decoded assertion vector guards the node accept exit '
-                     '(the decoder would accept misordered or repeated assertions)%s' % ('; ' + '; '.join(problems) if problems else ''), key='C06.6|missing', rule='GUARD/IDIOM-UNKNOWN')
-            continue
-        g, cls, why, passing = verdict
-        if cls != 'strict':
-            ctx.fail('C06.6', ctx.site(b, bi, si), 'order check is %s (%s): repeated or misordered assertion digests are accepted' % (cls or 'unrecognised', why),
-                     key='C06.6|' + (cls or 'unknown'))
-            continue
-        sg = strip_sites(g)
-        ok, info = guard_dominates(b, tb, [bi], lambda x: strip_sites(x) == sg, True)
-        if ok:
-            ctx.ok('C06.6', ctx.site(b, bi, si), 'node accept dominated by passing edge of strict order check %s; %s' % (why, info), sample=why)
-        else:
-            ctx.fail('C06.6', ctx.site(b, bi, si), 'strict order check exists but does not guard the accept exit: ' + info, key='C06.6|notguard')
+    check_decoder_order(ctx, 'C06.6', dec)
     # ---- C06.2 assertion map arity
     r = F.trait_impl('TryFrom', 'Assertion', 'try_from', trait_full_contains='Map')
     if len(r) != 1:
